@@ -51,6 +51,66 @@ func truthImpliesPositiveOp(fn *ssa.Function, v ssa.Value, fOp *types.Var, site 
 	return true
 }
 
+// helperTrueImpliesPositiveOp: the boolean helper can report true only when
+// the filter's operator is contains/eq.  Decided as reachability: assume the
+// operator is neither (cut the edges on which `Op == "contains"` / `Op == "eq"`
+// is true or `Op != …` is false, close short-circuit joins); then no return
+// that could yield true may be reachable.
+func helperTrueImpliesPositiveOp(fn *ssa.Function, fOp *types.Var) bool {
+	cuts := newCuts()
+	saw := false
+	allInstrs(fn, func(in ssa.Instruction) {
+		b, ok := in.(*ssa.BinOp)
+		if !ok || (b.Op != token.EQL && b.Op != token.NEQ) {
+			return
+		}
+		s, okc := constString(b.Y)
+		x := b.X
+		if !okc {
+			s, okc = constString(b.X)
+			x = b.Y
+		}
+		if !okc || !positiveOps[s] || !isLoadOfField(x, fOp) {
+			return
+		}
+		saw = true
+		t, f := boolEdges(b)
+		if b.Op == token.EQL {
+			cuts.addEdges(t)
+		} else {
+			cuts.addEdges(f)
+		}
+	})
+	if !saw {
+		return false
+	}
+	// both positive operators must have been tested for: with only one of them cut the other still admits – that is fine
+	cuts.closeBoolPhis(fn)
+	hit, _ := reach(entrySite(fn), func(in ssa.Instruction) bool {
+		r, ok := in.(*ssa.Return)
+		if !ok {
+			return false
+		}
+		for _, lf := range phiLeaves(returnValues(r)[0]) {
+			if k, isC := lf.Val.(*ssa.Const); isC && k.Value != nil && k.Value.String() == "false" {
+				continue
+			}
+			// a comparison of the operator with a positive constant is false under the assumption
+			if b, isB := lf.Val.(*ssa.BinOp); isB && b.Op == token.EQL {
+				if s, okc := constString(b.Y); okc && positiveOps[s] && isLoadOfField(b.X, fOp) {
+					continue
+				}
+			}
+			if lf.Pred != nil && lf.Phi != nil && cuts.Edges[Edge{lf.Pred, lf.Phi.Block()}] {
+				continue
+			}
+			return true
+		}
+		return false
+	}, cuts)
+	return !hit
+}
+
 func propC12(c *Ctx) {
 	c.Explanation = "Operator semantics on values are run-time and declined. Decided: (R12.1) the address restriction sent to the source is built from a log_addr filter only under a test that the filter's operator is a positive membership operator (contains/eq) – seen through the boolean helper – (a); and must also consult the aggregation, since with `or` another filter may accept logs of other addresses (b); (R12.2) the topic restriction is exactly [[hex(signature hash)]]; (R12.3) the fold is an identity when no filter contributed, AND for `and`, OR otherwise, and validation maps the empty aggregation to `or` and rejects anything else; (R12.4) every cell value is offered to its column's filter and a row is appended only when the fold accepts."
 	w := c.W
@@ -139,12 +199,7 @@ func propC12(c *Ctx) {
 				if b, ok := cal.Signature.Results().At(0).Type().Underlying().(*types.Basic); !ok || b.Kind() != types.Bool {
 					return
 				}
-				good := true
-				for _, r := range returnsOf(cal) {
-					if !truthImpliesPositiveOp(cal, returnValues(r)[0], fOp, r) {
-						good = false
-					}
-				}
+				good := helperTrueImpliesPositiveOp(cal, fOp)
 				if good {
 					t, _ := boolEdges(x)
 					guards = append(guards, t...)
@@ -235,7 +290,7 @@ func propC12(c *Ctx) {
 					if n, ok := constInt(b.Y); !ok || n != 1 {
 						return
 					}
-					for _, col := range loopCollections(b) {
+					for _, col := range append(loopCollections(b), loopElemCollections(b)...) {
 						if isSelectedOf(col) {
 							overSel = true
 						}
@@ -246,6 +301,65 @@ func propC12(c *Ctx) {
 				})
 				if !overSel || !overBlock {
 					good = false
+				}
+				// … and counts every filter that can vote: the fields whose emptiness makes Accept
+				// abstain (len(f.Arg), len(f.Ref.Integration)) are all looked at by the counting
+				lenFields := func(root *ssa.Function, stopAt func(ssa.Instruction) bool) map[string]bool {
+					out := map[string]bool{}
+					seenFn := map[*ssa.Function]bool{}
+					var visit func(f *ssa.Function, d int)
+					visit = func(f *ssa.Function, d int) {
+						if f == nil || seenFn[f] || d > 3 || f.Blocks == nil || !isRepoFunc(f) {
+							return
+						}
+						seenFn[f] = true
+						allInstrs(f, func(in ssa.Instruction) {
+							if call, ok := in.(*ssa.Call); ok {
+								if arg, isLen := lenArg(call); isLen {
+									if _, ch := fieldChain(arg); len(ch) > 0 {
+										// the part of the chain inside dig.Filter
+										k := ""
+										inFilter := false
+										for _, fv := range ch {
+											if inFilter {
+												k += "." + fv.Name()
+											}
+											if repoNamedIs(fv.Type(), "dig", "Filter") {
+												inFilter = true
+											}
+										}
+										if !inFilter {
+											// receiver is the filter itself
+											for _, fv := range ch {
+												k += "." + fv.Name()
+											}
+										}
+										out[k] = true
+									}
+								}
+								if h := regionCallee(call); h != nil {
+									visit(h, d+1)
+								}
+							}
+						})
+					}
+					visit(root, 0)
+					return out
+				}
+				accept := w.Fn("dig", "Filter.Accept")
+				abstain := map[string]bool{}
+				// Accept's first test: the lengths compared before anything is added to the fold
+				acc := lenFields(accept, nil)
+				for k := range acc {
+					if k == ".Arg" || k == ".Ref.Integration" {
+						abstain[k] = true
+					}
+				}
+				counted := lenFields(cal, nil)
+				for k := range abstain {
+					if !counted[k] {
+						good = false
+					}
 				}
 			}
 			if good {
